@@ -230,11 +230,14 @@ CHECKS = {
                   "evaluated on the implementation after every operation",
         text="Lean 4 theorems at full strength on the Spec: Spec.parse establishes RecInv for every input and every base "
              "satisfying it; each of the ten API setters preserves it for every value; hence every object reachable by "
-             "parse (with a parsed base) followed by any setter history satisfies it. The same predicate is evaluated on "
+             "parse (with a parsed base) followed by any setter history satisfies it. parsed_objects_hold_invariant_records - "
+             "through the parser models of C01 / C04 (proved equal to Spec.parse), the ada::url fields and the url_aggregator "
+             "buffer that ada::parse hands out are the image of such a record. The same predicate is evaluated on "
              "both C++ types after every step of generated histories.",
         design_ref="DESIGN.md §5 C19",
-        note="The theorems are about the Spec (validated transcription); the C++ is tied by C01/C03 correspondence and by "
-             "evaluating the predicate on the implementation."),
+        note="The theorems are about the Spec (validated transcription) and, for parse results and all ten setters, about the "
+             "models of the C++ that C01 / C03 / C04 prove equal to it; the C++ is tied to the models by correspondence and the "
+             "predicate is evaluated on the implementation."),
 
     "C08": dict(
         technique="Lean 4 proof: a statement-by-statement model of the fast scanner try_can_parse_absolute_fast (and the "
